@@ -215,6 +215,8 @@ class NotifyPath(RuleAnalysis):
         if "standard_compatible" in src and not any(isinstance(x, ast.Call) for x in ast.walk(test)):
             return "std", True
         if isinstance(test, ast.Call) and isinstance(test.func, ast.Attribute) and test.func.attr in ("is_closing", "is_closed"):
+            if isinstance(test.func.value, ast.Name) and test.func.value.id in ("self", "cls"):
+                return "?" + src, True  # the object's own state, not the wrapped transport's: an extra condition on the way to unwrap()
             return "open", False
         if isinstance(test, ast.Compare) and len(test.ops) == 1 and isinstance(test.left, ast.Call) and isinstance(test.left.func, ast.Attribute) and test.left.func.attr == "fileno" \
                 and isinstance(test.comparators[0], (ast.Constant, ast.UnaryOp)):
@@ -407,6 +409,51 @@ def check_cli(eng, run):
         run.ob("C09.cli", fn.short, ok)
 
 
+def check_layers_below(eng, run):
+    """two facts about the layers under / above the TLS transport that decide whether a truncation or a close is seen as what it is:
+    (a) a stapled (send + receive) transport reports `is_closing()` only when *both* halves are closing - the TLS transport asks it before
+        the closing handshake, and 'closing' as soon as the receive half is closed makes aclose() skip unwrap(): no close_notify is sent;
+    (b) the server-side request receivers treat a receive error as a disconnection only when a filter was given *and* accepts it: with
+        `filter is None or filter(exc)` the default (no filter) turns every error - the SSLEOFError of a truncated stream included - into a
+        clean end of the request stream"""
+    n = 0
+    for ci in eng.db.classes.values():
+        if not ci.module.name.endswith("transports.composite") or ci.methods.get("is_closing") is None:
+            continue
+        fn = ci.methods["is_closing"]
+        rets = [r.value for r in own_nodes(fn.node) if isinstance(r, ast.Return) and r.value is not None]
+        halves = [c for r in rets for c in ast.walk(r) if isinstance(c, ast.Call) and isinstance(c.func, ast.Attribute) and c.func.attr in ("is_closing", "is_closed")]
+        if len(halves) < 2:
+            continue
+        n += 1
+        ok = all(isinstance(r, ast.BoolOp) and isinstance(r.op, ast.And) for r in rets) or all(isinstance(r, ast.Call) and getattr(r.func, "id", "") == "all" for r in rets)
+        if not ok:
+            run.finding("C09.notify", fn, fn.node, "the stapled transport reports is_closing() when only one of its halves is closing: the TLS transport above it then skips the closing handshake "
+                        "although the send half is open - the peer sees a truncated stream instead of our close_notify")
+        run.ob("C09.notify", f"{ci.name}.is_closing:both-halves", ok)
+    for q in ("lowlevel.api_async.servers.stream:_RequestReceiver.next", "lowlevel.api_async.servers.stream:_BufferedRequestReceiver.next"):
+        fn = eng.db.fn_opt(q)
+        if fn is None:
+            continue
+        for i in [x for x in own_nodes(fn.node) if isinstance(x, ast.If) and any(isinstance(b, ast.Break) for b in x.body) and "filter" in ast.unparse(x.test)]:
+            n += 1
+            t = i.test
+            ok = isinstance(t, ast.BoolOp) and isinstance(t.op, ast.And) and any(isinstance(v, ast.Compare) and isinstance(v.ops[0], ast.IsNot) for v in t.values) \
+                and any(isinstance(v, ast.Call) for v in t.values)
+            if not ok:
+                from sa.norm import helper_return_expr
+                if isinstance(t, ast.Call):
+                    r = helper_return_expr(fn, t)
+                    if r is not None:
+                        t2 = r[0]
+                        ok = isinstance(t2, ast.BoolOp) and isinstance(t2.op, ast.And) and any(isinstance(v, ast.Compare) and isinstance(v.ops[0], ast.IsNot) for v in t2.values)
+            if not ok:
+                run.finding("C09.map", fn, i, f"a receive error ends the request stream under `{ast.unparse(i.test)[:70]}`: without a filter every error counts as a disconnection, so the SSLEOFError of a "
+                            "truncated TLS stream reaches the handler as a clean end-of-stream instead of being thrown into it")
+            run.ob("C09.map", f"{fn.short}:error-is-a-disconnection-only-if-the-filter-says-so", ok)
+    run.floor("C09 layer facts (stapled is_closing, receiver filters)", n, 3)
+
+
 def check_default(eng, run):
     """standard-compatible mode is the default everywhere: an entry point that accepts `standard_compatible=None` resolves None to
     True (and to nothing else) before use, or hands it unchanged to the callee that does; a literal default is True."""
@@ -485,6 +532,7 @@ def run(eng, run):
     run.attempt(check_flush_shared, eng, run)
     from sa.analyses.arms import check_dead_arms
     run.attempt(check_dead_arms, eng, run, "C09.arms", ("clients.tcp", "clients.async_tcp", "lowlevel.api_async.transports.tls", "lowlevel.api_sync.transports"), 7)
+    run.attempt(check_layers_below, eng, run)
     run.end_of_rules()
 
 
